@@ -728,3 +728,257 @@ def none_derefs(ctx: Ctx, fn: FuncInfo):
                 if ev.kind == "await":
                     unset.clear()              # other code ran in between
     return out
+
+
+# ----------------------------------------------------------------------- shared: the retry sends the caller's request
+def retry_resends_own_command(ctx: Ctx, rep, rule: str):
+    """send_request(command) hands exactly its own parameter to _send_request and to the retry recursion - never the
+    request remembered on the protocol object (self.command is the *previous* request until _send_request ran: a
+    retry after a failed connect would re-send that one, e.g. a write during a read-only call).  Helpers of the class
+    that transmit or retry on behalf of send_request are held to the same: they pass on their own parameter, and
+    send_request gives them its own."""
+    prog = ctx.prog
+    for ci in proto_classes(ctx):
+        sr = method(ctx, ci, "send_request")
+        rep.analysed_add("functions", sr.qualname)
+        methods = {}
+        for c in prog.mro(ci):
+            if isinstance(c, ClassInfo):
+                for nm, m in c.methods.items():
+                    methods.setdefault(nm, m)
+        bad = None
+        n = 0
+        carriers = {}      # method name -> index of the parameter that carries the request
+        for nm, m in methods.items():
+            for c in ast.walk(m.node):
+                if isinstance(c, ast.Call) and call_chain(c) in (("self", "send_request"), ("self", "_send_request")) and c.args:
+                    n += 1
+                    a = c.args[0]
+                    params = [x for x in m.params if x not in ("self", "cls")]
+                    rebound = isinstance(a, ast.Name) and any(isinstance(x, ast.Name) and x.id == a.id and isinstance(x.ctx, (ast.Store, ast.Del)) for x in ast.walk(m.node))
+                    if not (isinstance(a, ast.Name) and a.id in params) or rebound:
+                        if bad is None:
+                            bad = (m, c)
+                    elif nm != "send_request":
+                        carriers[nm] = params.index(a.id)
+        cmd = sr.params[1]
+        for c in ast.walk(sr.node):
+            cc = call_chain(c) if isinstance(c, ast.Call) else None
+            if cc and len(cc) == 2 and cc[0] == "self" and cc[1] in carriers and cc[1] != "_send_request":
+                k = carriers[cc[1]]
+                a = c.args[k] if k < len(c.args) else None
+                if not (isinstance(a, ast.Name) and a.id == cmd) and bad is None:
+                    bad = (sr, c)
+        if n < 2:
+            raise AnalysisError("%s: fewer than two uses of the request (transmission and retry) found in the class" % sr.short)
+        rep.check(bad is None, rule, "own-command:%s" % ci.name, bad[0].loc(bad[1]) if bad is not None else sr.loc(),
+                  "%s transmits and retries the request it was given (%d sites)" % (sr.short, n),
+                  bad=bad and "%s: %s does not pass on the caller's request unchanged: what is (re)transmitted may be another request - the one left on the protocol object by "
+                              "an earlier call (a write, say, while this call only reads)" % (bad[0].short, norm(bad[1])[:70]))
+
+
+# ----------------------------------------------------------------------- shared: in-flight fields are bound before use
+INFLIGHT_FIELDS = ("command", "response_future")
+
+
+def _inflight_derefs(fn: FuncInfo) -> List[Tuple[str, ast.AST]]:
+    """(field, node) for every `self.<field>.<attr>` / `self.<field>[...]` in fn that no earlier assignment to self.<field>
+    in the same function and no enclosing truth test of self.<field> protects."""
+    out = []
+    assigned_line = {}
+    for n in ast.walk(fn.node):
+        for attr, value, kind in self_store(n) if isinstance(n, ast.stmt) else []:
+            if attr in INFLIGHT_FIELDS and not (isinstance(value, ast.Constant) and value.value is None):
+                assigned_line[attr] = min(assigned_line.get(attr, 10 ** 9), n.lineno)
+    guarded = set()
+    for n in ast.walk(fn.node):
+        if isinstance(n, (ast.If, ast.IfExp, ast.BoolOp, ast.While)):
+            tests = [n.test] if not isinstance(n, ast.BoolOp) else list(n.values[:-1])
+            for t in tests:
+                for x in ast.walk(t):
+                    c = chain(x) if isinstance(x, ast.Attribute) else None
+                    if c and len(c) == 2 and c[0] == "self" and c[1] in INFLIGHT_FIELDS:
+                        scope = (n.body if isinstance(n, (ast.If, ast.While)) else [n.body] if isinstance(n, ast.IfExp) else n.values[1:])
+                        for s in scope:
+                            for y in ast.walk(s):
+                                guarded.add(id(y))
+    for n in ast.walk(fn.node):
+        base = None
+        if isinstance(n, ast.Attribute) and isinstance(n.value, ast.Attribute):
+            base = n.value
+        elif isinstance(n, ast.Subscript) and isinstance(n.value, ast.Attribute):
+            base = n.value
+        if base is None:
+            continue
+        c = chain(base)
+        if not (c and len(c) == 2 and c[0] == "self" and c[1] in INFLIGHT_FIELDS):
+            continue
+        if id(n) in guarded or getattr(n, "lineno", 0) > assigned_line.get(c[1], 10 ** 9):
+            continue
+        out.append((c[1], n))
+    return out
+
+
+def inflight_fields_bound(ctx: Ctx, rep, rule: str):
+    """self.command / self.response_future are None on a fresh protocol object and are bound by _send_request.  On every
+    path of send_request an attribute of one of them is used - there or in a method it calls - only after _send_request
+    ran on that path (a failed connect reaches the retry handlers and _max_retries_reached() before anything was
+    bound: AttributeError instead of the documented failure)."""
+    for ci in proto_classes(ctx):
+        sr = method(ctx, ci, "send_request")
+        rep.analysed_add("functions", sr.qualname)
+        own = {id(n): (f, n) for f, n in _inflight_derefs(sr)}
+        callee_derefs = {}
+        for name, m in ((nm, ctx.prog.find_method(ci, nm)) for nm in ("_max_retries_reached", "_close_transport", "_connect", "_ensure_lock")):
+            if m is not None:
+                d = _inflight_derefs(m)
+                if d:
+                    callee_derefs[name] = (m, d)
+        bad = None
+        npaths = 0
+        for p in protocol_paths(ctx, sr):
+            npaths += 1
+            bound = False
+            for ev in p.events:
+                t = tags(ev)
+                if ev.kind == "call" and "inner_send" in t:
+                    bound = True
+                    continue
+                if bound or bad is not None:
+                    continue
+                if ev.kind == "call" and isinstance(ev.node, ast.Call):
+                    c = call_chain(ev.node) or ()
+                    if len(c) == 2 and c[0] == "self" and c[1] in callee_derefs:
+                        m, d = callee_derefs[c[1]]
+                        bad = (p, d[0][0], m.loc(d[0][1]), "%s, called at %s" % (m.short, sr.loc(ev.node)))
+                        continue
+                if ev.kind in ("call", "test", "stmt", "return") and ev.node is not None:
+                    for x in ast.walk(ev.node):
+                        if id(x) in own:
+                            bad = (p, own[id(x)][0], sr.loc(x), sr.short)
+                            break
+        if npaths == 0:
+            raise AnalysisError("%s has no feasible path" % sr.short)
+        rep.check(bad is None, rule, "inflight-bound:%s" % ci.name, sr.loc(),
+                  "%s: attributes of self.command / self.response_future are used only after _send_request bound them (%d paths)" % (sr.short, npaths),
+                  bad=bad and "%s uses an attribute of self.%s (%s) on a path on which _send_request has not run: on a fresh protocol object the field is None and "
+                              "AttributeError leaves the request instead of the documented failure [path %s]" % (bad[3], bad[1], bad[2], bad[0].describe(8)))
+
+
+# ----------------------------------------------------------------------- shared: the transport is there when it is used
+def transport_present_when_used(ctx: Ctx, rep, rule: str):
+    """While send_request is suspended the loop may drop the transport (connection_lost / a timeout closing it set
+    self._transport = None).  On every path of send_request an attribute of self._transport is used - there or by
+    _send_request - only when the last thing that could suspend was the awaited _connect(), or under a truth test of
+    self._transport made since then: otherwise AttributeError replaces the documented failure."""
+    from ..effects import MaySuspend
+    ms = ctx.memo("maysuspend", lambda: MaySuspend(ctx.prog, ctx.res))
+
+    def connects(aw: ast.Await) -> bool:
+        for x in ast.walk(aw):
+            if isinstance(x, ast.Call) and (call_chain(x) == ("self", "_connect") or (call_chain(x) or ("",))[-1] in ("create_datagram_endpoint", "create_connection")):
+                return True
+        return False
+
+    for ci in proto_classes(ctx):
+        sr = method(ctx, ci, "send_request")
+        rep.analysed_add("functions", sr.qualname)
+        bad = None
+        npaths = nuses = 0
+        for p in protocol_paths(ctx, sr):
+            npaths += 1
+            present = False
+            for ev in p.events:
+                if ev.kind in ("await", "raise") and isinstance(ev.node, ast.Await):
+                    if ev.kind == "await" and connects(ev.node):
+                        present = True
+                    elif ms.await_suspends(ev.node, sr):
+                        present = False
+                    continue
+                if ev.kind == "test" and chain(ev.node) == ("self", "_transport"):
+                    present = present or ev.data is True
+                    if ev.data is False:
+                        present = False
+                    continue
+                uses = []
+                if ev.kind == "call" and "inner_send" in tags(ev):
+                    uses.append(ev.node)
+                if ev.kind in ("call", "test", "stmt", "return") and ev.node is not None:
+                    for x in ast.walk(ev.node):
+                        if isinstance(x, ast.Attribute) and isinstance(x.value, ast.Attribute) and chain(x.value) == ("self", "_transport"):
+                            uses.append(x)
+                for u in uses:
+                    nuses += 1
+                    if not present and bad is None:
+                        bad = (p, u)
+        if npaths == 0 or nuses == 0:
+            raise AnalysisError("%s: no use of the transport found on any path" % sr.short)
+        rep.check(bad is None, rule, "transport-present:%s" % ci.name, sr.loc(),
+                  "%s uses the transport only right after the awaited _connect() or under a test of self._transport (%d paths)" % (sr.short, npaths),
+                  bad=bad and "%s: %s is evaluated at %s after a suspension during which the loop may have dropped the transport (connection_lost sets self._transport = None): "
+                              "AttributeError on None instead of the documented failure [path %s]" % (sr.short, norm(bad[1])[:60], sr.loc(bad[1]), bad[0].describe(8)))
+
+
+# ----------------------------------------------------------------------- shared: bookkeeping dictionaries cannot raise
+def dict_lookups_total(ctx: Ctx, rep, rule: str):
+    """A dictionary kept on the protocol object (counters, statistics, per-reason bookkeeping: created in __init__ with
+    a fixed key set) is read with a computed key only where a missing key cannot raise: KeyError in a receive callback
+    leaves the callback after the timer was cancelled and before the future was completed - the request neither fails
+    nor times out; in send_request it replaces the documented failure."""
+    prog = ctx.prog
+    nsites = 0
+    for ci in proto_classes(ctx):
+        dict_attrs = {}
+        methods = {}
+        for c in prog.mro(ci):
+            if not isinstance(c, ClassInfo):
+                continue
+            for nm, m in c.methods.items():
+                methods.setdefault(nm, m)
+            init = c.methods.get("__init__")
+            if init is None:
+                continue
+            for st in ast.walk(init.node):
+                if not isinstance(st, ast.stmt):
+                    continue
+                for attr, value, kind in self_store(st):
+                    v = value
+                    is_dict = isinstance(v, (ast.Dict, ast.DictComp)) or (
+                        isinstance(v, ast.Call) and norm(v.func) in ("dict", "dict.fromkeys", "collections.OrderedDict", "OrderedDict"))
+                    if is_dict:
+                        dict_attrs[attr] = init.loc(st)
+        bad = None
+        for nm, m in methods.items():
+            parents = {}
+            for n in ast.walk(m.node):
+                for ch in ast.iter_child_nodes(n):
+                    parents[id(ch)] = n
+            for n in ast.walk(m.node):
+                if not (isinstance(n, ast.Subscript) and chain(n.value) and len(chain(n.value)) == 2 and chain(n.value)[0] == "self" and chain(n.value)[1] in dict_attrs):
+                    continue
+                par = parents.get(id(n))
+                loads = isinstance(n.ctx, ast.Load) or (isinstance(par, ast.AugAssign) and par.target is n)
+                if not loads or isinstance(n.slice, ast.Constant):
+                    continue
+                nsites += 1
+                # guarded: `key in self.<d>` tested by an enclosing if, or an enclosing try that catches the lookup error
+                guarded = False
+                cur = n
+                while id(cur) in parents:
+                    up = parents[id(cur)]
+                    if isinstance(up, ast.If) and cur in up.body and any(
+                            isinstance(x, ast.Compare) and len(x.ops) == 1 and isinstance(x.ops[0], ast.In) and norm(x.left) == norm(n.slice)
+                            and norm(x.comparators[0]) == norm(n.value) for x in ast.walk(up.test)):
+                        guarded = True
+                    if isinstance(up, ast.Try) and cur in up.body and any(
+                            h.type is None or any(isinstance(x, ast.Name) and x.id in ("KeyError", "LookupError", "Exception", "BaseException") for x in ast.walk(h.type))
+                            for h in up.handlers):
+                        guarded = True
+                    cur = up
+                if not guarded and bad is None:
+                    bad = (m, n)
+        rep.check(bad is None, rule, "dict-lookup:%s" % ci.name, bad[0].loc(bad[1]) if bad else ci.module.relpath,
+                  "%s: no unguarded computed-key lookup in a dictionary of the protocol object (%d dictionaries)" % (ci.name, len(dict_attrs)),
+                  bad=bad and "%s: %s looks up a computed key in a dictionary created with a fixed key set (%s): KeyError for any other key (an exception reason outside the table, "
+                              "say) escapes - in a receive callback after the timer was cancelled and before the future is completed, so the request neither fails nor times out" % (
+                                  bad[0].short, norm(bad[1])[:60], dict_attrs[chain(bad[1].value)[1]]))
